@@ -35,8 +35,11 @@ pub enum Content {
     /// matching credential named by a list of 40 entries in which it is the 17th (16 unknown ids
     /// before it, 23 after): lists longer than any batch size a lookup might use
     MatchViaLongList,
+    /// two matching credentials named by a list of 300 entries, one among its first 128 entries and
+    /// one beyond the 128th: lists longer than a lookup page
+    TwoViaVeryLongList,
 }
-pub const CONTENTS: [Content; 7] = [Content::NoMatch, Content::MatchViaList, Content::MatchNoList, Content::OtherRpOnly, Content::TwoViaList, Content::TwoNoList, Content::MatchViaLongList];
+pub const CONTENTS: [Content; 8] = [Content::NoMatch, Content::MatchViaList, Content::MatchNoList, Content::OtherRpOnly, Content::TwoViaList, Content::TwoNoList, Content::MatchViaLongList, Content::TwoViaVeryLongList];
 
 #[derive(Clone, Debug, Serialize, Deserialize, PartialEq, Eq, Hash)]
 pub struct Case {
@@ -68,6 +71,10 @@ pub struct Case {
     /// a later lookup lists first changes; the content does not)
     #[serde(default)]
     pub flip: bool,
+    /// CTAP2 level, requests without pin-auth: 1 = pinUvAuthProtocol is present although no
+    /// pinUvAuthParam is (a member without meaning on its own: the request is an ordinary one)
+    #[serde(default)]
+    pub protocol_only: bool,
 }
 
 fn cap_of(c: u8) -> Option<bool> {
@@ -104,9 +111,12 @@ pub fn cases() -> Vec<Case> {
                                         if wire != 0 && (arc_mutex != (wire % 2 == 0) || ext >= 2) {
                                             continue;
                                         }
-                                        v.push(Case { op, rk: bits & 4 != 0, up: bits & 2 != 0, uv: bits & 1 != 0, cap, presence_cap, outcome, pin, arc_mutex, level: 0, uvreq: 0, ext, wire, flip: false });
+                                        v.push(Case { op, rk: bits & 4 != 0, up: bits & 2 != 0, uv: bits & 1 != 0, cap, presence_cap, outcome, pin, arc_mutex, level: 0, uvreq: 0, ext, wire, flip: false, protocol_only: false });
+                                        if wire == 0 && !pin && ext == 0 {
+                                            v.push(Case { op, rk: bits & 4 != 0, up: bits & 2 != 0, uv: bits & 1 != 0, cap, presence_cap, outcome, pin, arc_mutex, level: 0, uvreq: 0, ext, wire, flip: false, protocol_only: true });
+                                        }
                                         if wire == 0 && !pin {
-                                            v.push(Case { op, rk: bits & 4 != 0, up: bits & 2 != 0, uv: bits & 1 != 0, cap, presence_cap, outcome, pin, arc_mutex, level: 0, uvreq: 0, ext, wire, flip: true });
+                                            v.push(Case { op, rk: bits & 4 != 0, up: bits & 2 != 0, uv: bits & 1 != 0, cap, presence_cap, outcome, pin, arc_mutex, level: 0, uvreq: 0, ext, wire, flip: true, protocol_only: false });
                                         }
                                     }
                                 }
@@ -119,7 +129,7 @@ pub fn cases() -> Vec<Case> {
         for uvreq in 0..4u8 {
             for cap in 0..3u8 {
                 for outcome in 0..7u8 {
-                    v.push(Case { op, rk: false, up: true, uv: false, cap, presence_cap: true, outcome, pin: false, arc_mutex: false, level: 1, uvreq, ext: 0, wire: 0, flip: false });
+                    v.push(Case { op, rk: false, up: true, uv: false, cap, presence_cap: true, outcome, pin: false, arc_mutex: false, level: 1, uvreq, ext: 0, wire: 0, flip: false, protocol_only: false });
                 }
             }
         }
@@ -133,6 +143,10 @@ const OTHER: &str = "other.org";
 fn store_for(op: Op, content: Content) -> (RefStore, Option<Vec<Vec<u8>>>) {
     store_for_ext(op, content, false)
 }
+/// 300 ids: credential 1 is the 6th entry, credential 3 (which the store lists first) the 201st, the rest unknown
+pub fn very_long_list() -> Vec<Vec<u8>> {
+    (0..300u16).map(|i| match i { 5 => cred_id(1), 200 => cred_id(3), _ => [vec![0xD1, (i >> 8) as u8, i as u8], vec![0x66; 13]].concat() }).collect()
+}
 fn store_for_ext(op: Op, content: Content, ext: bool) -> (RefStore, Option<Vec<Vec<u8>>>) {
     let hmac = ext.then_some(true);
     let own = seeded(&Seed { n: 1, rp: RP.into(), handle: Some(vec![1, 2, 3]), counter: Some(5), hmac });
@@ -144,6 +158,7 @@ fn store_for_ext(op: Op, content: Content, ext: bool) -> (RefStore, Option<Vec<V
         Content::TwoNoList => (RefStore::with(vec![own.clone(), other.clone(), own2.clone()]), None),
         Content::NoMatch => (RefStore::with(vec![]), None),
         Content::MatchViaList => (RefStore::with(vec![other, own]), Some(vec![cred_id(1)])),
+        Content::TwoViaVeryLongList => (RefStore::with(vec![own.clone(), other.clone(), own2.clone()]), Some(very_long_list())),
         Content::MatchViaLongList => {
             let unknown = |k: u8| -> Vec<u8> { [vec![0xD0, k], vec![0x77; 14]].concat() };
             let list: Vec<Vec<u8>> = (0..16u8).map(unknown).chain([cred_id(1)]).chain((16..39u8).map(unknown)).collect();
@@ -186,6 +201,9 @@ where
         Op::Make => {
             let ext = (c.ext != 0).then(|| passkey_types::ctap2::make_credential::ExtensionInputs { hmac_secret: Some(true), hmac_secret_mc: None, prf: Some(prf()) });
             let mut req = mc_request(RP, &[9, 9], list, c.rk, c.up, c.uv, c.pin, ext);
+            if c.protocol_only {
+                req.pin_protocol = Some(1);
+            }
             if c.wire != 0 {
                 req = rewire(&req, 7, c.wire).unwrap_or_else(|e| panic!("{e}"));
             }
@@ -197,6 +215,9 @@ where
         Op::Get => {
             let ext = (c.ext != 0).then(|| passkey_types::ctap2::get_assertion::ExtensionInputs { hmac_secret: None, prf: Some(prf()) });
             let mut req = ga_request(RP, list, c.rk, c.up, c.uv, c.pin, ext);
+            if c.protocol_only {
+                req.pin_protocol = Some(1);
+            }
             if c.wire != 0 {
                 req = rewire(&req, 5, c.wire).unwrap_or_else(|e| panic!("{e}"));
             }
@@ -417,7 +438,7 @@ pub fn eval(c: &Case) -> (Vec<Finding>, Vec<String>) {
                     let expected_err = c.pin
                         || (c.op == Op::Get && c.rk)
                         || (c.op == Op::Get && matches!(content, Content::NoMatch | Content::OtherRpOnly))
-                        || (c.op == Op::Make && matches!(content, Content::MatchViaList | Content::TwoViaList | Content::MatchViaLongList))
+                        || (c.op == Op::Make && matches!(content, Content::MatchViaList | Content::TwoViaList | Content::MatchViaLongList | Content::TwoViaVeryLongList))
                         // UV-only secrets evaluated at creation: without a verified user there is no
                         // secret the evaluation may use (UserVerificationBlocked, C09's subject)
                         || (c.op == Op::Make && c.ext == 2 && !(asked_uv && reported.map_or(false, |(_, v)| v)));
@@ -539,7 +560,7 @@ pub fn eval_pair(p: &Pair) -> (Vec<Finding>, String) {
             Op::Get => block_on(auth.get_assertion(ga_request(RP, None, false, true, uvreq, false, None))).map(|r| u8::from(r.auth_data.flags)).map_err(sc_byte),
         });
         let after = shared.recs();
-        let c = Case { op, rk: false, up: true, uv: uvreq, cap: cap_now, presence_cap: true, outcome, pin: false, arc_mutex: false, level: 0, uvreq: 0, ext: 0, wire: 0, flip: false };
+        let c = Case { op, rk: false, up: true, uv: uvreq, cap: cap_now, presence_cap: true, outcome, pin: false, arc_mutex: false, level: 0, uvreq: 0, ext: 0, wire: 0, flip: false, protocol_only: false };
         let ok = consent_ok(&c, true, uvreq);
         let checked = log.snapshot().iter().any(|e| matches!(e, Event::CheckUser { .. }));
         match r {
